@@ -50,6 +50,25 @@ Theorem C04_returns_minimum_within_caps : forall (inst : nat -> kfdc_inst) (out 
 Proof. exact mfdc_returns_minimum_within_caps. Qed.
 Print Assumptions C04_returns_minimum_within_caps.
 
+From FP Require AuditExamples17.
+(* ALL hypotheses of C04_returns_minimum_within_caps (solver specification included) hold for a concrete honest solver on the self-loop
+   graph with flow 2: inst j = that input with k := j; an admissible decomposition into j walks exists exactly for j >= 1 (one walk of
+   weight 1 going round twice and j - 1 walks of weight 0), so the j-model is satisfiable exactly for j >= 1; out = Infeasible, Optimal,
+   Optimal, ...; and the search computes Solved 1 *)
+Example C04_minimum_hypotheses_satisfiable :
+  let inst := AuditExamples17.loopk in
+  let out := AuditExamples17.cover_out in
+  (forall j, c_k (inst j) = j /\ wf_stg (c_graph (inst j)) /\ o_allow_empty (c_opts (inst j)) = false /\ inputs_ok (inst j)) /\
+  (forall j, out j = Optimal <-> exists a, sat a (encode_kfdc (inst j))) /\
+  (forall j, out j = Infeasible <-> ~ exists a, sat a (encode_kfdc (inst j))) /\
+  (forall j : nat, (fun _ : nat => false) j = false) /\
+  (forall g, @None nat = Some g -> exists P wt, admissible (inst g) P wt) /\
+  (exists P wt, admissible (inst 1) P wt) /\
+  (forall j, j < 1 -> ~ exists P wt, admissible (inst j) P wt) /\ 0 <= 1 <= 3 /\
+  mfdc_solve out (fun _ => false) None 0 3 = Solved 1.
+Proof. exact AuditExamples17.loop_flow_search_hypotheses. Qed.
+Print Assumptions C04_minimum_hypotheses_satisfiable.
+
 (* for kFlowDecompCycles as it is (cap = the edge's own flow value) the caps that matter are: weights at most w_max and
    multiplicities at most cap(e); the bit-width and product clauses follow from the flow equation *)
 Theorem C04_caps_of_the_code_as_it_is : forall (I : kfdc_inst) (P : N -> list node) (wt : N -> Q),
